@@ -128,6 +128,20 @@ type c10Case struct {
 	w        c10Write
 	issuer   string // self | other
 	position string // before-multi | after-multi
+	style    int    // how the key gets watched (index into c10WatchStyles)
+}
+
+// c10WatchStyles: the ways a key can end up in the watch set. w is always the key the row modifies.
+var c10WatchStyles = [][][]string{
+	// (zw1, zw2 are keys that no row of the table touches)
+	{{"WATCH", "w"}},
+	{{"WATCH", "zw1", "w"}},
+	{{"WATCH", "w", "zw2"}},
+	{{"WATCH", "zw1"}, {"WATCH", "zw1", "w"}}, // an already watched key listed before the new one
+	{{"WATCH", "w"}, {"WATCH", "w", "zw1"}},   // ... and after it
+	{{"WATCH", "zw1", "zw2"}, {"WATCH", "zw2", "w", "zw1"}},
+	{{"WATCH", "w", "w"}},
+	{{"WATCH", "zw1"}, {"WATCH", "w"}, {"WATCH", "zw1"}},
 }
 
 func c10Run(r *verdict.Run, e *emu, cs c10Case) {
@@ -170,7 +184,9 @@ func c10Run(r *verdict.Run, e *emu, cs c10Case) {
 	for _, s := range cs.w.setup {
 		step(B, sb, "B", s...)
 	}
-	step(A, sa, "A", "WATCH", "w")
+	for _, wcmd := range c10WatchStyles[cs.style%len(c10WatchStyles)] {
+		step(A, sa, "A", wcmd...)
+	}
 	switch cs.w.unwatch {
 	case "unwatch":
 		step(A, sa, "A", "UNWATCH")
@@ -218,12 +234,12 @@ func c10Run(r *verdict.Run, e *emu, cs c10Case) {
 	r.Eval(1)
 	aborted := ex.Null
 	ran := ex.Kind == '*' && !ex.Null && len(ex.Elems) == 1
-	key := fmt.Sprintf("%s/%s/%s/%s", cs.w.name, cs.w.state, cs.issuer, cs.position)
+	key := fmt.Sprintf("%s/%s/%s/%s/watch-style-%d", cs.w.name, cs.w.state, cs.issuer, cs.position, cs.style)
 	rep := map[string]any{"script": log, "expect_abort": cs.w.modify}
 	// cross-check: the model must agree with the explicit table
 	modelAbort := exExp.Val.Null && exExp.Pred == nil && exExp.Err == ""
 	if !exExp.Unspec && modelAbort != cs.w.modify {
-		r.Inconclusive(fmt.Sprintf("oracle disagreement on %s: table says abort=%v, model says abort=%v", key, cs.w.modify, modelAbort))
+		r.Inconclusive(fmt.Sprintf("oracle disagreement on %s: table says abort=%v, model says abort=%v; script: %s", key, cs.w.modify, modelAbort, strings.Join(log, " | ")))
 		return
 	}
 	if cs.w.modify && cs.w.waitMs == 0 && wreply.IsError() {
@@ -270,12 +286,26 @@ func checkC10(r *verdict.Run) {
 	var cases []c10Case
 	for _, w := range table {
 		if w.waitMs > 0 {
-			cases = append(cases, c10Case{w, "other", "before-multi"}, c10Case{w, "other", "after-multi"})
+			cases = append(cases, c10Case{w: w, issuer: "other", position: "before-multi"}, c10Case{w: w, issuer: "other", position: "after-multi"})
 			continue
 		}
-		cases = append(cases, c10Case{w, "other", "before-multi"}, c10Case{w, "other", "after-multi"}, c10Case{w, "self", "before-multi"})
+		cases = append(cases, c10Case{w: w, issuer: "other", position: "before-multi"}, c10Case{w: w, issuer: "other", position: "after-multi"}, c10Case{w: w, issuer: "self", position: "before-multi"})
 	}
-	r.Rule = fmt.Sprintf("exhaustive matrix: %d write/control rows (every effective write command per key type and state, reads, failing writes, writes to other keys, natural expiry, WATCH dropped by UNWATCH/DISCARD/EXEC) x issuer {watching connection, other connection} x position {between WATCH and MULTI, between MULTI and EXEC}; "+
+	// every case with every way of getting the key into the watch set
+	base := cases
+	cases = nil
+	for i, c := range base {
+		if c.issuer == "other" && c.position == "before-multi" {
+			for st := range c10WatchStyles {
+				c.style = st
+				cases = append(cases, c)
+			}
+		} else {
+			c.style = i % len(c10WatchStyles) // the other issuer/position combinations rotate through the styles
+			cases = append(cases, c)
+		}
+	}
+	r.Rule = fmt.Sprintf("exhaustive matrix: %d write/control rows (every effective write command per key type and state, reads, failing writes, writes to other keys, natural expiry, WATCH dropped by UNWATCH/DISCARD/EXEC) x issuer {watching connection, other connection} x position {between WATCH and MULTI, between MULTI and EXEC} x 8 ways of watching the key (all 8 for a write by the other connection before MULTI, rotating otherwise: alone, with other keys, in a second WATCH that lists already watched keys before or after it, twice); "+
 		"each case on a fresh emulator: WATCH w; [write]; MULTI; [write]; SET marker 1; EXEC - EXEC must be null and marker absent iff the row is an effective write; the reference model is run on the same script and must agree with the table (else inconclusive). "+
 		"Plus the schedule dimension: 4-8 connections increment a shared string counter / hash field / list length with WATCH-read-MULTI-write-EXEC under yields injected around the data store lock; every successful EXEC must have written a distinct value and the final value must equal the number of successful EXECs. distinct = (row, state, issuer, position, outcome) + concurrent configurations", len(table))
 	r.Set("matrix_rows", len(table))
